@@ -93,7 +93,8 @@ def dump(con, tables=None):
     names = [r[0] for r in con.execute("select name from sqlite_master where type='table' order by name")]
     for n in names:
         info = [(r[1], (r[2] or '').upper(), r[3], r[5]) for r in con.execute(f'PRAGMA table_info("{n}")')]
-        rows = collections.Counter(con.execute(f'select * from "{n}"').fetchall())
+        # values with their storage class: 1 and 1.0 are different table contents
+        rows = collections.Counter(tuple((type(v).__name__, v) for v in row) for row in con.execute(f'select * from "{n}"').fetchall())
         out[n] = (tuple(info), rows)
     return out
 
